@@ -10,8 +10,9 @@ delivers the float32 nearest to it (`F32.ofRatio`, one correct rounding of an ex
 `float32(u-8192)/64`, `float32(u)/120`, `float32(u)/15120` in float32 arithmetic.  This file proves that
 both agree for EVERY byte string, and the same for the five colour forms.
 
-The integer and `/64` forms are proved structurally from the soft-float definitions (exact values).
-The `/120` and `/15120` forms are settled in `SpecZ2O.lean` (imported by `SpecInstr.lean`).
+The integer and `/64` forms are proved from the soft-float definitions (exact values).  The `/120` and
+`/15120` forms follow from the general theorem of `SpecDiv.lean` ("float32 division of two integers is
+correctly rounded"), instantiated in `SpecZ2O.lean` (imported by `SpecInstr.lean`).
 -/
 namespace Ivg.SpecL
 open Ivg Num Codec
@@ -193,7 +194,7 @@ theorem coordinate_eq (b : Bytes) : FFV0.coordinate b = Dec.decodeCoordinate b :
     · simp only [coord_two u hu]; rfl
     · rfl
 
-/-- `zeroToOne_eq`, given the two division facts (discharged in `SpecZ2O.lean`) -/
+/-- `zeroToOne_eq`, given the two division facts (`z2o_one`, `z2o_two` in `SpecZ2O.lean`) -/
 theorem zeroToOne_eq_of (H1 : ∀ u : Nat, u < 128 → F32.ofInt u / F32.ofInt 120 = F32.ofRatio false u 120)
     (H2 : ∀ u : Nat, u < 16384 → F32.ofInt u / F32.ofInt 15120 = F32.ofRatio false u 15120)
     (b : Bytes) : FFV0.zeroToOne b = Dec.decodeZeroToOne b := by
